@@ -1012,6 +1012,7 @@ theorem c05_shape_Overlay_TransmitMsg :
    ["treeStorage.getAndRefresh", "verifPoint:tm.miss", "o.requestTree", "verifPoint:tm.found",
      "transmitMux.Lock", "defer:transmitMux.Unlock", "instancesLock.Lock", "To.ID", "To.ID",
      "o.cleanTreeStorage", "instancesLock.Unlock", "o.TreeNodeFromTree",
+     "instancesLock.Lock", "o.cleanTreeStorage", "instancesLock.Unlock",
      "o.newTreeNodeInstanceFromToken", "treeStorage.Set", "o.hasPendingMsg",
      "o.checkPendingMessages", "To.ID", "o.getConfig",
      "serviceManager.newProtocol", "instancesLock.Lock", "o.nodeDelete", "instancesLock.Unlock",
